@@ -135,6 +135,18 @@ func build(root string, tree []entry, fl flags) map[string]string {
 			// Go files the go tool ignores (a scratch file, an editor's lock file, an orphan with such a name): files like
 			// any other for the walk, whatever sorts after them is still visited
 			put(j(e.kind), otherGo, t0)
+		case "linked.templ", "linked.templ+linked_templ.go(stale)":
+			// a template that is a symbolic link to a regular file kept elsewhere (a component shared between packages):
+			// a template like any other; the file it points to lives in a skipped directory and is not touched
+			src := strings.Replace(ok1Src, "Ok1", "Linked", 1)
+			store := filepath.Join("_store", "linked-"+strings.ReplaceAll(e.dir, "/", "-")+".src")
+			put(store, src, t0)
+			os.MkdirAll(filepath.Join(root, e.dir), 0o755)
+			os.Symlink(filepath.Join(root, store), filepath.Join(root, j("linked.templ")))
+			files[j("linked.templ")] = src
+			if e.kind != "linked.templ" {
+				put(j("linked_templ.go"), staleGo, t0.Add(-time.Hour))
+			}
 		case "empty.templ":
 			put(j("empty.templ"), "", t0)
 		case "blank.templ":
@@ -513,6 +525,12 @@ func treesAndConfigs(thorough bool) ([][]entry, []cfg) {
 			trees = append(trees, []entry{{k, d}}, []entry{{k, d}, {"ok1.templ", d}}, []entry{{k, d}, {"bad.templ", "a"}})
 		}
 		trees = append(trees, []entry{{"empty.templ", d}, {"empty_templ.go(stale)", d}}, []entry{{"empty.templ", d}, {"empty_templ.go(stale)", d}, {"ok1.templ", d}})
+	}
+	// templates that are symbolic links to regular files
+	for _, d := range []string{"", "a", "vendor"} {
+		for _, k := range []string{"linked.templ", "linked.templ+linked_templ.go(stale)"} {
+			trees = append(trees, []entry{{k, d}}, []entry{{k, d}, {"ok1.templ", d}}, []entry{{k, d}, {"bad.templ", "a"}, {"orphan_templ.go", d}})
+		}
 	}
 	for _, d := range []string{"", "a", "vendor"} {
 		for _, k := range []string{"epoch.templ", "pre-epoch.templ"} {
